@@ -189,6 +189,21 @@ def FExpr.coefs : FExpr → List Rat
   | .sub a b => padd a.coefs b.coefs
   | .mul a b => pmul a.coefs b.coefs
 
+/-- Are all multipliers `j` of `sin(j * m)` / `cos(j * m)` whole numbers (so that a whole turn added to `m` is invisible)? -/
+def TrigArg.integral : TrigArg → Bool
+  | .jm j => decide (j.toRat.den = 1)
+  | _ => true
+
+def FExpr.integral : FExpr → Bool
+  | .lit _ => true
+  | .x => true
+  | .sin a => a.integral
+  | .cos a => a.integral
+  | .neg a => a.integral
+  | .add a b => a.integral && b.integral
+  | .sub a b => a.integral && b.integral
+  | .mul a b => a.integral && b.integral
+
 /-- Centre and radius of the values of the reported elongation angle (before `Angle(...).to_positive()`), degrees. -/
 def Finder.elonMid (r : Finder) : Rat := match r.elon with | none => 0 | some e => e.mid 0
 def Finder.elonRad (r : Finder) : Rat := match r.elon with | none => 0 | some e => e.rad 0 tMax
